@@ -42,6 +42,8 @@ pub enum NodeOp {
     /// ConfigAsyncCmd::Add to the ConfigActor (history id from the config sequence, then Raft)
     Publish { key: reqgen::KeyIx, value: String },
     HistoryIds,
+    /// (last_applied, end index of the newest catalogued snapshot, last log index)
+    IndexInfo,
     Sleep(u64),
     /// _exit right away (after the write barrier unless `raw`)
     Exit { raw: bool },
@@ -59,6 +61,7 @@ pub enum NodeRes {
     Seq(u64),
     Range { start: u64, len: u64 },
     HistoryIds(Value),
+    IndexInfo { last_applied: u64, snapshot_end: u64, last_log: u64 },
 }
 
 #[derive(Debug, Clone, Serialize, Deserialize)]
@@ -443,6 +446,24 @@ async fn exec(app: &Arc<AppShareData>, op: &NodeOp, spawned: &mut Vec<tokio::tas
         }
         NodeOp::Dump => NodeRes::Dump(dump(app).await),
         NodeOp::HistoryIds => NodeRes::HistoryIds(history_ids(app).await),
+        NodeOp::IndexInfo => {
+            store_barrier(app).await;
+            let last_log = app.raft_store.get_last_log_index().await.map(|l| l.index).unwrap_or(0);
+            match app.factory_data.get_actor::<RaftIndexManager>() {
+                Some(idx) => match idx.send(RaftIndexRequest::LoadIndexInfo).await {
+                    Ok(Ok(RaftIndexResponse::RaftIndexInfo {
+                        raft_index,
+                        last_applied_log,
+                    })) => NodeRes::IndexInfo {
+                        last_applied: last_applied_log,
+                        snapshot_end: raft_index.snapshots.last().map(|s| s.end_index).unwrap_or(0),
+                        last_log,
+                    },
+                    _ => NodeRes::Err("LoadIndexInfo failed".into()),
+                },
+                None => NodeRes::Err("no index manager".into()),
+            }
+        }
         NodeOp::Barrier => {
             for h in spawned.drain(..) {
                 let _ = h.await;
